@@ -104,6 +104,25 @@ def Rope.lenOKB : Rope → Bool
   | .concat l r t => l.lenOKB && r.lenOKB && decide (t = l.len + r.len)
   | .tiled u c => u.lenOKB && decide (u.len * c ≤ usizeMax)
 
+/-- `value.rs::MAX_BINARY_SIZE`, enforced by `allocate_binary_data` on `data.len()`. -/
+def maxBinarySize : Nat := 16 * 1024 * 1024
+
+/-- `BinaryData::concat`. -/
+def Rope.mkConcat (l r : Rope) : Rope := .concat l r (l.len + r.len)
+
+/-- `BinaryData::slice` (bounds check, empty slice, full slice, proper slice). -/
+def Rope.mkSlice (p : Rope) (off l : Nat) : Option Rope :=
+  if off > p.len ∨ off + l > p.len then none
+  else if l = 0 then some (.owned [])
+  else if off = 0 ∧ l = p.len then some p
+  else some (.slice p off l)
+
+/-- `BinaryData::tiled` (degenerate cases normalised). -/
+def Rope.mkTiled (u : Rope) (c : Nat) : Rope :=
+  if c = 0 ∨ u.len = 0 then .owned []
+  else if c = 1 then u
+  else .tiled u c
+
 /-- What the executor holds when it compares: the canonical table, the constants, the heap
 (materialised), plus — for `erase` only — the tuple table the canonical table was computed from. -/
 structure Ctx where
